@@ -46,6 +46,8 @@ def scratch_copy(repo, tag):
 
 
 def apply_mutant(dst, spec):
+    if 'edits' in spec:
+        return all(apply_mutant(dst, dict(e, file=e.get('file', spec.get('file')))) for e in spec['edits'])
     p = os.path.join(dst, spec['file'])
     try:
         s = open(p).read()
